@@ -3894,9 +3894,8 @@ impl M2Model {
                 // Calculate the offset in the data section where this texture's definition was written
                 // The data section starts right after the on-disk header, so the texture
                 // definitions start at (header.textures.offset - header_size)
-                let def_offset_in_data = (header.textures.offset as usize - header_size)
-                    + (i * texture_def_size)
-                    + 8;
+                let def_offset_in_data =
+                    (header.textures.offset as usize - header_size) + (i * texture_def_size) + 8;
 
                 // Update the count and offset for the filename
                 data_section[def_offset_in_data..def_offset_in_data + 4]
